@@ -9,9 +9,12 @@ class blocks:
             for hop in [None] + list(range(1, 9)):
                 for L in range(0, 14):
                     yield {"L": L, "size": size, "hop": hop}
+        for pad in (None, 0, "", False):
+            for size, hop, L in ((2, 1, 3), (3, 3, 4), (2, 5, 6), (4, 2, 5)):
+                yield {"L": L, "size": size, "hop": hop, "pad": repr(pad)}
 
     @staticmethod
-    def model(L, size, hop):
+    def model(L, size, hop, pad="pad"):
         H = size if hop is None else hop
         x = list(range(L))
         out, k = [], 0
@@ -19,7 +22,7 @@ class blocks:
             out.append(x[k * H:k * H + size]); k += 1
         real = max(L - k * H, 0)
         if real > max(size - H, 0):
-            out.append(x[k * H:] + ["pad"] * (size - real))
+            out.append(x[k * H:] + [pad] * (size - real))
         return out
 
     @staticmethod
@@ -27,13 +30,14 @@ class blocks:
         from audiolazy import blocks as real_blocks, Stream
         L, size, hop = inp["L"], inp["size"], inp["hop"]
         H = size if hop is None else hop
-        want = blocks.model(L, size, hop)
+        pad = eval(inp["pad"]) if "pad" in inp else "pad"
+        want = blocks.model(L, size, hop, pad)
         for via in ("function", "Stream.blocks"):
             src = Counting(range(L))
             if via == "function":
-                g = real_blocks(src, size=size, hop=hop, padval="pad")
+                g = real_blocks(src, size=size, hop=hop, padval=pad)
             else:
-                g = iter(Stream(src).blocks(size=size, hop=hop, padval="pad"))
+                g = iter(Stream(src).blocks(size=size, hop=hop, padval=pad))
             if src.pulled != 0:
                 return "%s: construction read %d items" % (via, src.pulled)
             got = []
@@ -45,13 +49,14 @@ class blocks:
                     return "%s: raised %s after %d blocks" % (via, r[1], len(got))
                 got.append(r[1])
                 j = len(got)
-                if j <= len(want) and len(want[j - 1]) == size and "pad" not in want[j - 1]:
+                if j <= len(want) and len(want[j - 1]) == size and all(isinstance(v, int) and not isinstance(v, bool) for v in want[j - 1]) and "pad" not in inp:
                     if src.pulled != (j - 1) * H + size:
                         return "%s: block %d available after %d reads, property says (j-1)*hop+size=%d" % (via, j, src.pulled, (j - 1) * H + size)
                 if len(got) > len(want) + 2:
                     break
-            if got != want:
-                return "%s: blocks(range(%d), size=%r, hop=%r) = %r, property says %r" % (via, L, size, hop, got, want)
+            same = len(got) == len(want) and all(len(a) == len(b) and all((u is v) or (type(u) is type(v) and u == v) for u, v in zip(a, b)) for a, b in zip(got, want))
+            if not same:
+                return "%s: blocks(range(%d), size=%r, hop=%r, padval=%r) = %r, property says %r" % (via, L, size, hop, pad, got, want)
         return None
 
 
